@@ -197,7 +197,8 @@ func (t *typeValidator) Validate(data interface{}) *Result {
 		return errorHelp.sErr(errors.InvalidType(t.Path, t.In, t.Format, format), t.Options.recycleResult)
 	}
 
-	if !(t.Type.Contains(numberType) || t.Type.Contains(integerType)) && t.Format != "" && (kind == reflect.String || kind == reflect.Slice) {
+	if len(t.Type) == 0 && t.Format != "" && (kind == reflect.String || kind == reflect.Slice) {
+		// a format without a type: strings (and byte slices) are left to the format validator
 		return emptyResult
 	}
 
